@@ -604,4 +604,100 @@ theorem run_loaded_err {s1 : St} (code : List Instr) (as : List AState) (N fuel 
       · have hcs : curSize sx = ((fnOf sx mainFn).code.length : Int) := by simp [curSize, e3, hux]
         rw [← hcs, hsx]; rfl
 
+/-! ## One text that ends in an error -/
+
+/-- **A text of the grammar that ends in an error**, served by an interpreter that satisfies the
+invariants and is at rest: the error has a fault — a state `s₀` of the run that satisfies the
+run-time invariant, the instruction `i` fetched there, the state `s₁` its failing `exec` left —
+and if `s₁` is `FaultOK` (it is when `i` is not a call instruction: `faultOK_simple`) the
+interpreter is served again: table invariant, `mainfunc`, AT REST with the three stacks exactly
+those of entry. -/
+theorem runText_err (fuel : Nat) (es : List Expr) (s s' : St) (v : String) (tr : List String) (d : String) (alive : Bool)
+    (hs : Served s) (hok : okLs es = true) (h : runText fuel es s = (Outcome.done "err" v tr d, s', alive)) :
+    ∃ b s₀ top rest i m s₁, b.main = true ∧ WF s₀ ∧ Running b s₀ top rest ∧
+      (fnOf s₀ s₀.curfunc).code[s₀.pc.toNat]? = some i ∧ (exec m i).run s₀ = (.error .err, s₁) ∧
+      (FaultOK b s₀ s₁ → Served s') := by
+  obtain ⟨hw, hm, ⟨hd, hl, ha, hls, hcf, hpc⟩, hsusp⟩ := hs
+  obtain ⟨s0, hs0⟩ : ∃ s0 : St, s0 = { s with trace := [] } := ⟨_, rfl⟩
+  have hw0 : WF s0 := by
+    rw [hs0]
+    exact hw.mk' (TExt.same rfl rfl) (fun id h1 h2 => absurd h2 (Nat.not_lt.mpr h1)) hw.loopstack hw.scopes hw.heap hw.lazies hw.data
+  rcases hload : (runGen (compileBegin (isFnScope s0) {} es)).run s0 with ⟨r, s1⟩
+  cases r with
+  | error e =>
+    exfalso
+    unfold runText at h
+    rw [← hs0] at h
+    simp only [hload] at h
+    have := congrArg (fun x => x.1) h
+    simp at this
+  | ok ct =>
+    obtain ⟨code, t⟩ := ct
+    rw [hs0] at hload
+    rw [runText_loaded fuel es s s1 code t hpc hload] at h
+    rw [← hs0] at hload
+    rcases hr : (run fuel).run (loaded s1 code) with ⟨r, s3⟩
+    rw [hr] at h
+    have hcls : r = .error .err ∧ s3 = s' := by
+      cases r with
+      | ok val => simp only [finishRun] at h; have := congrArg (fun x => x.1) h; simp at this
+      | error e =>
+        cases e with
+        | err => simp only [finishRun] at h; cases h; exact ⟨rfl, rfl⟩
+        | panic => simp only [finishRun] at h; have := congrArg (fun x => x.1) h; simp at this
+        | timeout => simp only [finishRun] at h; have := congrArg (fun x => x.1) h; simp at this
+    obtain ⟨rfl, rfl⟩ := hcls
+    obtain ⟨hw1, he1, d1, l1, a1, c1, p1, _, hcode, hids, as, τ, hfrag, h0, _⟩ := load_ok (isFnScope s0) es code t hw0 hok hload
+    have hidx : mainFn < s0.fns.length := by have := hw0.two; show 0 < s0.fns.length; omega
+    have hfo : fnOf s1 mainFn = fnOf s mainFn := by rw [he1.fnOf mainFn hidx, hs0]; rfl
+    have hsz : (szS s).le (szS s1) := by have := he1.sz; rw [hs0] at this; exact this
+    obtain ⟨b, s₀, top, rest, i, m, s₁, q0, q1, q2, q3, q4, q5⟩ := run_loaded_err code as s0.loops.length fuel s3 hw1
+      (by rw [d1, hs0]; exact hd) (by rw [a1, hs0]; exact ha) (by rw [load_susp _ _ hload, hs0]; exact hsusp)
+      (by rw [hfo]; exact hm.user) (by rw [hfo]; exact hm.code.mono hsz)
+      (by rw [hfo, hs0]; exact hm.ids) hids he1.loops_len (by rw [p1, hfo, hs0]; exact hm.pc) hcode hfrag h0 hr
+    refine ⟨b, s₀, top, rest, i, m, s₁, q0, q1, q2, q3, q4, fun hf => ?_⟩
+    obtain ⟨r1, r2, r3, r4, r5, r6, r7, r8⟩ := q5 hf
+    refine ⟨r1, r2, ⟨r3, by rw [r4, l1, hs0]; exact hl, r5, r6, r7, ?_⟩, r8⟩
+    have hcs : curSize s3 = ((fnOf s3 mainFn).code.length : Int) := by
+      simp [curSize, r7, r2.user]
+    rw [hcs, r2.pc]
+    exact Int.le_refl _
+
+/-- (C1 at the level of texts) **an error raised by a non-call instruction — at any depth of
+activations of the outermost loop, in code of the top-level text or of any function it called
+in that loop — leaves the interpreter served and at rest.** `hfault` says that every fault
+the run can have is at a non-call instruction (for instance: the text's error is raised by an
+unbound symbol, a failed `break`, a type error of an assignment…, not inside a builtin or a
+nested evaluation). -/
+theorem runText_err_simple_partial (fuel : Nat) (es : List Expr) (s s' : St) (v : String) (tr : List String) (d : String)
+    (alive : Bool) (hs : Served s) (hok : okLs es = true)
+    (h : runText fuel es s = (Outcome.done "err" v tr d, s', alive))
+    (hfault : ∀ (s₀ s₁ : St) (i : Instr) (m : Nat), (fnOf s₀ s₀.curfunc).code[s₀.pc.toNat]? = some i →
+      (exec m i).run s₀ = (.error .err, s₁) → simple i = true) : Served s' := by
+  obtain ⟨b, s₀, top, rest, i, m, s₁, _, q1, q2, q3, q4, q5⟩ := runText_err fuel es s s' v tr d alive hs hok h
+  apply q5
+  cases m with
+  | zero => simp only [VM.exec, run_throw] at q4; cases q4
+  | succ n => exact faultOK_simple q1 q2 q3 (hfault s₀ s₁ i (n + 1) q3 q4) n .err q4
+
+/-- what (C2) has to provide: a failing CALL instruction (`callArr`, `callExpr`) fetched by a
+`Running` loop leaves a `FaultOK` state — the nested evaluators restore on every error path -/
+def CallFaultOK : Prop :=
+  ∀ (b : Base) (s₀ s₁ : St) (top : Act) (rest : List Act) (i : Instr) (m : Nat), WF s₀ → Running b s₀ top rest →
+    (fnOf s₀ s₀.curfunc).code[s₀.pc.toNat]? = some i → simple i = false →
+    (exec m i).run s₀ = (.error .err, s₁) → FaultOK b s₀ s₁
+
+/-- with it, the served states are closed under erroring texts -/
+theorem runText_err_served (hcall : CallFaultOK) (fuel : Nat) (es : List Expr) (s s' : St) (v : String) (tr : List String)
+    (d : String) (alive : Bool) (hs : Served s) (hok : okLs es = true)
+    (h : runText fuel es s = (Outcome.done "err" v tr d, s', alive)) : Served s' := by
+  obtain ⟨b, s₀, top, rest, i, m, s₁, _, q1, q2, q3, q4, q5⟩ := runText_err fuel es s s' v tr d alive hs hok h
+  apply q5
+  cases hsi : simple i with
+  | true =>
+    cases m with
+    | zero => simp only [VM.exec, run_throw] at q4; cases q4
+    | succ n => exact faultOK_simple q1 q2 q3 hsi n .err q4
+  | false => exact hcall b s₀ s₁ top rest i m q1 q2 q3 hsi q4
+
 end ZygoVerif.RunInv
